@@ -48,14 +48,21 @@ REQUIRED_THEOREMS = ['Yaql.Props.C12.call_equiv', 'Yaql.Props.C12.ext_both_ways'
                      'Yaql.Props.C12Gen.alias_convention_each', 'Yaql.Props.C12Gen.keyword_names_are_keywords',
                      'Yaql.Props.C12Gen.registered_names_converted', 'Yaql.Props.C12.call_filter_nonkeywords',
                      'Yaql.Props.C12.call_resolver_input', 'Yaql.Props.C12.camel_of_python',
-                     'Yaql.Props.C12.toCamel_fixed', 'Yaql.Props.C12.not_call_junk_invariant_full']
-TRUSTED = ['harness/gens/registry.py (the dump of the live registry)',
-           'the typed value corpus and the canonicalisation of results (harness/values.py)']
+                     'Yaql.Props.C12.toCamel_fixed', 'Yaql.Props.C12.toCamel_idempotent',
+                     'Yaql.Props.C12.not_call_junk_invariant_full']
+TRUSTED = ['harness/gens/registry.py (the dump of the live registry; the reading of decorators from the source text with ast)',
+           'the typed value corpus and the canonicalisation of results (harness/values.py)',
+           'harness/c12_worker.py (contexts created in the stated order before anything else in that interpreter)']
 ASSUMPTIONS = ['spelling_equiv is proved one parameter at a time (positional <-> keyword, default omitted <-> explicit); the '
                'whole-vector statement spelling_equiv_full is kept as a def',
                'smart types outside the closed description (AnyOf, Chain, NotOfType, DateTime..) are encoded for the model as '
                'PythonType(object) with one synthetic validator = their real check()',
-               'parser-level spellings (arglist grammar) belong to the parser group']
+               'parser-level spellings (arglist grammar) belong to the parser group',
+               'names are ASCII (the generator refuses others), so \\w / isalpha / upper of the naming model are the ASCII ones',
+               'a context without a convention passes parameters under their python names as they are (doc-silent; modelled '
+               'as implemented; the oracle does not test trailing-underscore names there)',
+               'is_keyword is a prefix test (re.match): a key like "a b" counts as a keyword (modelled as implemented; the '
+               'oracle adds only keys that are no keywords under any reading)']
 
 
 def generate():
@@ -209,7 +216,12 @@ def documented_name(fd, p, conv='camel'):
     else the convention translation of the python parameter name (camel: trailing underscores stripped,
     snake_case -> camelCase; python: trailing underscores stripped; none: the python name) - computed by the
     transcription in gens/registry.py, never read from the definition"""
-    return greg.promised_kw(conv, greg.declared_alias(fd, p), p.name)
+    decl = greg.declared_alias(fd, p)
+    if conv == 'none' and decl is None and p.name.endswith('_'):
+        # doc-silent: without a convention nothing says whether `from_` is passed as `from_` (what happens: the
+        # alias stays empty) or as `from` (what convert_parameter_name(name, None) would give): no promise to test
+        return p.alias or p.name
+    return greg.promised_kw(conv, decl, p.name)
 
 
 def spellings(fd, vis, kwonly, choice, conv='camel'):
@@ -460,9 +472,11 @@ def sweep_context(conv, root, rng, per_fd, sink, replay=None, model_reqs=None, w
     names_count = {}
     for _, n2, _ in defs:
         names_count[n2] = names_count.get(n2, 0) + 1
+    rbase = rng.random()
     for di, (li, name, fd) in enumerate(defs):
         if replay and replay['def'] != di:
             continue
+        rng = common.make_rng(rbase, 'def/%d' % di)       # per definition, so that a replay draws the same tuples
         if fd.payload.__name__ in ('now', 'random', 'random__', 'random_', 'random_int') or name in NONDETERMINISTIC:
             bump('skipped-nondeterministic')
             continue
@@ -486,7 +500,7 @@ def sweep_context(conv, root, rng, per_fd, sink, replay=None, model_reqs=None, w
         for ch in sorted(tuples, key=repr):
             if replay and list(ch) != replay['choice']:
                 continue
-            crng = common.make_rng(rng.random(), 'case')
+            crng = common.make_rng(rbase, 'case/%d/%r' % (di, ch))
             choice = {p.name: (None if c is None else cands[p.name][c]) for p, c in zip(vis + kwonly, ch)}
             labels = {p.name: (None if c is None else cands[p.name][c][0]) for p, c in zip(vis + kwonly, ch)}
             sp = spellings(fd, vis, kwonly, choice, conv)
@@ -547,30 +561,29 @@ def sweep_context(conv, root, rng, per_fd, sink, replay=None, model_reqs=None, w
                 # a function with **kwargs: extra keywords arrive through call() as they arrive directly
                 if '**' in fd.parameters and not fd.no_kwargs and usable:
                     tag, _, argf, kwf = sp[usable[0]]
-                    extra = crng.sample(EXTRA_KW, 2)
+                    for extra in ([EXTRA_KW[:3], EXTRA_KW[3:]] + [crng.sample(EXTRA_KW, 2) for _ in range(2)]):
+                        def args_kw(argf=argf, kwf=kwf, extra=extra):
+                            kw = {k: f() for k, f in kwf.items()}
+                            kw.update({k: 7 for k in extra if k not in kw})
+                            return tuple(a() for a in argf), kw
 
-                    def args_kw(argf=argf, kwf=kwf, extra=extra):
-                        kw = {k: f() for k, f in kwf.items()}
-                        kw.update({k: 7 for k in extra if k not in kw})
-                        return tuple(a() for a in argf), kw
+                        def direct_ss():
+                            a, kw = args_kw()
+                            return ctx(name, ENGINE)(*a, **kw)
 
-                    def direct_ss():
-                        a, kw = args_kw()
-                        return ctx(name, ENGINE)(*a, **kw)
-
-                    def call_ss():
-                        a, kw = args_kw()
-                        return ctx('call', ENGINE)(name, a, utils.FrozenDict(kw))
-                    d1, o = outcome(direct_ss), outcome(call_ss)
-                    bump('call:starstar-extra')
-                    outs.append(('starstar/call()', d1))
-                    if o != d1:
-                        call_fail.append(('starstar/call()', 'extra-keywords', d1, o, extra))
+                        def call_ss():
+                            a, kw = args_kw()
+                            return ctx('call', ENGINE)(name, a, utils.FrozenDict(kw))
+                        d1, o = outcome(direct_ss), outcome(call_ss)
+                        bump('call:starstar-extra')
+                        outs.append(('starstar/call()', d1))
+                        if o != d1:
+                            call_fail.append(('starstar/call()', 'extra-keywords', d1, o, extra))
             resolved = base not in NOT_RESOLVED
             bump('tuples')
             bump('spellings', len(outs))
             for tag, o in outs:
-                bump('spelling:' + tag.split('@')[0].split('/')[0])
+                bump('spelling:' + ('call()' if '/' in tag else tag.split('@')[0]))
             bump('result:' + ('error' if base.startswith('err:') else 'value'))
             sink.case(common.digest(case), resolved and len(outs) >= 2, sample=case)
             for stag, vtag, direct, o, keys in call_fail:
@@ -583,9 +596,11 @@ def sweep_context(conv, root, rng, per_fd, sink, replay=None, model_reqs=None, w
             if resolved:
                 diff = [(t, o) for t, o in outs if o != base and '/' not in t]
                 if diff:
+                    kws = next((sorted(kwf) for tag, _, _, kwf in sp if tag == diff[0][0]), [])
                     sink.fail('oracle', 'spelling:' + name,
-                              '[%s context] %s %r: positional -> %s but %s -> %s' % (
-                                  conv, name, labels, base[:120], diff[0][0], diff[0][1][:120]), case)
+                              '[%s context%s] %s %r: positional -> %s but %s (keywords %s) -> %s' % (
+                                  conv, ' #%d of %s' % (where['ctx_index'], '>'.join(where['order'])) if where else '',
+                                  name, labels, base[:120], diff[0][0], ', '.join(kws), diff[0][1][:120]), case)
                 elif outs_u[0][1] == base:
                     # plain name resolution picks this definition positionally; a keyword spelling that then is
                     # AMBIGUOUS (not: answered by another overload that owns these names) contradicts the statement
@@ -807,7 +822,7 @@ def run(env, res):
     tier = env['tier']
     rng = common.make_rng(env['seed'], 'C12')
     per_fd = 60 if tier == 'quick' else 400
-    per_fd_conv = 6 if tier == 'quick' else 40
+    per_fd_conv = 10 if tier == 'quick' else 40
     sink = Sink(res)
     res.rule = ('every registered definition x argument tuples from a typed corpus (values that pass the parameter\'s own '
                 'check; each defaulted parameter given or left out) x spellings (all positional, every positional/keyword '
@@ -912,11 +927,17 @@ def run(env, res):
 
 
 LEVEL_TEXT = ('Lean 4: call_equiv, ext_both_ways, kind_exclusive, spelling_kw_move / spelling_default_move over the model of '
-              'translate_args / get_delegate for every well-formed definition (WFDef), and generated-table theorems '
-              'registry_wf, alias_convention (decide +kernel over all 284 registered definitions, regenerated per run). '
-              'Tie: every registered definition called through the real resolver in every spelling on typed corpus tuples '
-              '(same result / error class), and map_args/get_delegate of the real definition against the model per spelling.')
-LEVEL_NOTE = ('trusted: Lean kernel; Model/Types, Resolve, RegistryRow; the registry dump; the corpus. spelling_equiv is '
-              'proved per parameter move; the whole-vector statement (spelling_equiv_full) is not derived.')
-TECHNIQUE = 'Lean 4 proof + generated registry table (decide +kernel) + differential testing over the full registry'
+              'translate_args / get_delegate for every well-formed definition (WFDef); call_filter_nonkeywords / '
+              'call_resolver_input over the model of call()\'s keyword filter; toCamel_fixed / toCamel_idempotent / '
+              'camel_of_python over the model of the naming conventions; generated-table theorems registry_wf, '
+              'alias_convention, alias_convention_each, keyword_names_are_keywords, registered_names_converted (decide +kernel '
+              'over all 284 registered definitions as found in contexts of every convention, created in several orders in '
+              'fresh interpreters; regenerated per run). Tie: every registered definition called through the real resolver '
+              'in every spelling on typed corpus tuples (same result / error class) in contexts of every convention and '
+              'creation order, call() with extra non-keyword keys, map_args/get_delegate of the real definition against the '
+              'model per spelling, and the naming / filtering functions against the model.')
+LEVEL_NOTE = ('trusted: Lean kernel; Model/Types, Resolve, RegistryRow, Naming; the registry dump; the corpus. spelling_equiv is '
+              'proved per parameter move; the whole-vector statement (spelling_equiv_full) is not derived. '
+              'call_junk_invariant_full is refuted for keys that are not strings (known finding call-nonstring-key).')
+TECHNIQUE = 'Lean 4 proof + generated registry tables (decide +kernel) + differential testing over the full registry'
 DESIGN_REF = 'DESIGN.md section 5, C12'
